@@ -507,6 +507,9 @@ func (m *Machine) Draw(t *rapid.T, g *GenOpts) Action {
 			a.Signer = 1 + attacker
 			a.Forge = []int{0, 2}[uniform(t, 2, "forge")]
 		}
+	case "ethTx":
+		m.drawEth(t, g, &a)
+		return a
 	case "avsRegister", "avsUpdate", "avsDeregister", "avsOptIn", "avsOptOut", "avsBLS", "avsTask", "avsResult", "avsChallenge":
 		m.drawAvs(t, g, &a)
 		return a
